@@ -1,7 +1,8 @@
 (* C03 -- control transfers land on their label; the label table is exact.  Statements only.
    `assemble_items` is the hand-written model of the 16 passes of asm.assemble (Model/Passes.v, tied to the code by
    the pipeline correspondence); it calls the GENERATED criteria / encoders / relocation functions.
-   Quantifier: programs with unique label names and `align N` with N >= 1 (nonneg, NoDup (gnames its)). *)
+   Quantifier: programs with `align N`, N >= 1 (nonneg); unique label names are ENFORCED: a successful run implies
+   NoDup (gnames its) (a duplicate definition is refused). *)
 From Coq Require Import ZArith List String.
 From BB Require Import Base.PyBase Gen.Encoders Spec.RV32 Spec.RVC Spec.Operands Model.Items Model.Encode Model.Passes
   Proofs.Layout Proofs.Pipeline Proofs.Targets Proofs.Reloc Proofs.Examples.
@@ -15,9 +16,10 @@ Open Scope Z_scope.
    marker -- i.e. the address of the bytes that follow the label in the output. *)
 Theorem C03_labels :
   forall its consts0 labels0 compress r,
-    assemble_items its consts0 labels0 compress = Done r -> nonneg its -> NoDup (gnames its) ->
+    assemble_items its consts0 labels0 compress = Done r -> nonneg its ->
+    NoDup (gnames its) /\
     exists fin, grouped Rsrc its fin /\ blobbed fin (r_chunks r) /\ exact fin (r_labels r) /\ gnames fin = gnames its.
-Proof. intros. apply source_order. eapply pipeline_layout; eauto. Qed.
+Proof. intros its c0 l0 cmp r H Hn. destruct (pipeline_layout its c0 l0 cmp r H Hn) as [F D]. split; [exact D|]. apply source_order. exact F. Qed.
 Print Assumptions C03_labels.
 
 (* every label of the program is in the table *)
